@@ -286,7 +286,7 @@ func checkC12(c *Check) {
 					def, n := localDef(info, fi.Decl.Body, to)
 					if call, ok := ast.Unparen(def).(*ast.CallExpr); ok && n == 1 && isCall(info, call, "time.NewTimer") && len(call.Args) == 1 {
 						// duration: X.Time.Sub(now) with X the dispatched slot
-						if sub, ok := ast.Unparen(call.Args[0]).(*ast.CallExpr); ok && isCall(info, sub, "time.Time.Sub") {
+						if sub, ok := ast.Unparen(resolveLocal(info, fi.Decl.Body, call.Args[0])).(*ast.CallExpr); ok && isCall(info, sub, "time.Time.Sub") {
 							if len(dcalls[0].call.Args) == 1 && mentions(info, callRecv(sub), objOf(info, dcalls[0].call.Args[0])) {
 								okTimer = true
 							}
